@@ -344,3 +344,119 @@ Example ex_f_length_345 :
   f_compute_line_length (map Z2F [0; 0; 3; 4; 3; 0; 0; 0]%Z) [0; 8] = Z2F 12 /\
   compute_line_length (map Some [0; 0; 3; 4; 3; 0; 0; 0]%Z) [0; 8] = ([25; 16; 9]%Z, Some 12%Z).
 Proof. split; vm_compute; reflexivity. Qed.
+
+(* ================================================================== *)
+(* ---- float length: forward error bound for arbitrary stored doubles ----
+   (Proofs/FloatLengthBound.v, over Flocq's binary64.)  What the float `length` MEANS
+   when the segment lengths are not integers.  u64 = 2^-53 is the unit roundoff.
+   [seg_R (x0,y0,x1,y1)] = sqrt((X1-X0)^2 + (Y1-Y0)^2) over R, X = [fvalue x] the real value
+   of the stored double; [segs_R l] = the sum of [seg_R] over l.  A segment is
+   [seg_in_range] when each exact difference X1-X0, Y1-Y0 of its stored coordinates is 0 or
+   has magnitude in [2^-500, 2^500]: then no square, sum or partial sum overflows and no
+   square is subnormal (differences and sums of doubles have relative error <= u even in
+   the subnormal range; the sqrt of a double is never subnormal). ---- *)
+From SP Require Import Proofs.FloatLengthBound.
+
+Theorem u64_value : u64 = (/ 2 ^ 53)%R.
+Proof. exact FloatLengthBound.u64_value. Qed.
+Print Assumptions u64_value.
+
+Theorem seg_in_range_spec : forall x0 y0 x1 y1,
+  seg_in_range (x0, y0, x1, y1) <->
+  (let dx := (fvalue x1 - fvalue x0)%R in
+   dx = 0%R \/ (/ 2 ^ 500 <= Rabs dx <= 2 ^ 500)%R) /\
+  (let dy := (fvalue y1 - fvalue y0)%R in
+   dy = 0%R \/ (/ 2 ^ 500 <= Rabs dy <= 2 ^ 500)%R).
+Proof. exact FloatLengthBound.seg_in_range_spec. Qed.
+Print Assumptions seg_in_range_spec.
+
+Theorem seg_R_spec : forall x0 y0 x1 y1,
+  seg_R (x0, y0, x1, y1) =
+  R_sqrt.sqrt ((fvalue x1 - fvalue x0) * (fvalue x1 - fvalue x0) +
+               (fvalue y1 - fvalue y0) * (fvalue y1 - fvalue y0))%R.
+Proof. exact FloatLengthBound.seg_R_spec. Qed.
+Print Assumptions seg_R_spec.
+
+(* one segment: subtraction (1+u) on each difference, hence (1+u)^2 on each square, one
+   (1+u) for each product and for their sum: the argument of sqrt is within (1+u)^4, the
+   root within (1+u)^2, its rounding within (1+u)^3 *)
+Theorem f_segment_length_bound : forall x0 y0 x1 y1,
+  f_finite4 x0 y0 x1 y1 = true -> seg_in_range (x0, y0, x1, y1) ->
+  ffinite (f_seglen x0 y0 x1 y1) = true /\
+  (Rabs (fvalue (f_seglen x0 y0 x1 y1) - seg_R (x0, y0, x1, y1))
+    <= ((1 + u64) ^ 3 - 1) * seg_R (x0, y0, x1, y1))%R.
+Proof. exact FloatLengthBound.f_segment_length_bound. Qed.
+Print Assumptions f_segment_length_bound.
+
+(* the model function itself: [fseg_terms vals offs] is the list of segments the loops add
+   (f_length_structure: consecutive vertices with both ends finite, ring by ring, in
+   order); n = its length.  All terms are non-negative, so every accumulation costs one
+   factor (1+u); the first one, 0 + r, is exact: exponent 3 + (n - 1) = n + 2. *)
+Theorem f_length_bound : forall vals offs,
+  Forall seg_in_range (fseg_terms vals offs) ->
+  (Z.of_nat (length (fseg_terms vals offs)) <= 2 ^ 50)%Z ->
+  ffinite (f_compute_line_length vals offs) = true /\
+  (Rabs (fvalue (f_compute_line_length vals offs) - segs_R (fseg_terms vals offs))
+    <= ((1 + u64) ^ (length (fseg_terms vals offs) + 2) - 1) * segs_R (fseg_terms vals offs))%R.
+Proof. exact FloatLengthBound.f_length_bound. Qed.
+Print Assumptions f_length_bound.
+
+(* the two-sided form *)
+Theorem f_length_bound_interval : forall vals offs,
+  Forall seg_in_range (fseg_terms vals offs) ->
+  (Z.of_nat (length (fseg_terms vals offs)) <= 2 ^ 50)%Z ->
+  let n := length (fseg_terms vals offs) in
+  let L := segs_R (fseg_terms vals offs) in
+  ((1 - u64) ^ (n + 2) * L <= fvalue (f_compute_line_length vals offs)
+                          <= (1 + u64) ^ (n + 2) * L)%R.
+Proof. exact FloatLengthBound.f_length_bound_interval. Qed.
+Print Assumptions f_length_bound_interval.
+
+(* a sufficient condition on the coordinates alone: every finite stored coordinate is 0 or
+   has magnitude in [2^-400, 2^400] (such doubles are multiples of 2^-452, so a difference
+   of two of them is 0 or at least 2^-452 in magnitude) *)
+Theorem coord_ok_spec : forall f,
+  coord_ok f <->
+  (f_isfinite f = true ->
+   fvalue f = 0%R \/ (/ 2 ^ 400 <= Rabs (fvalue f) <= 2 ^ 400)%R).
+Proof. exact FloatLengthBound.coord_ok_spec. Qed.
+Print Assumptions coord_ok_spec.
+
+Theorem f_length_bound_coords : forall vals offs,
+  Forall coord_ok vals ->
+  (Z.of_nat (length (fseg_terms vals offs)) <= 2 ^ 50)%Z ->
+  ffinite (f_compute_line_length vals offs) = true /\
+  (Rabs (fvalue (f_compute_line_length vals offs) - segs_R (fseg_terms vals offs))
+    <= ((1 + u64) ^ (length (fseg_terms vals offs) + 2) - 1) * segs_R (fseg_terms vals offs))%R.
+Proof. exact FloatLengthBound.f_length_bound_coords. Qed.
+Print Assumptions f_length_bound_coords.
+
+(* against the exact specification: coordinates are floats holding the integers zs
+   (|z| <= 2^499); ts = the squared segment lengths of the exact model, whose meaning is
+   [length_R ts] = the sum over R of sqrt (IZR t) (C14_length_is_euclidean).  Perfect
+   squares or not, the float length is finite and within (1+u)^(n+2) - 1, relative, of it
+   (f_length_exact_squares is the case where the error is 0). *)
+Theorem f_length_bound_int : forall fv zs offs,
+  Forall2 frep fv zs -> Forall (fun z => (Z.abs z <= 2 ^ 499)%Z) zs ->
+  (Z.of_nat (length (fst (compute_line_length (map Some zs) offs))) <= 2 ^ 50)%Z ->
+  ffinite (f_compute_line_length fv offs) = true /\
+  (Rabs (fvalue (f_compute_line_length fv offs)
+         - length_R (fst (compute_line_length (map Some zs) offs)))
+    <= ((1 + u64) ^ (length (fst (compute_line_length (map Some zs) offs)) + 2) - 1)
+       * length_R (fst (compute_line_length (map Some zs) offs)))%R.
+Proof. exact FloatLengthBound.f_length_bound_int. Qed.
+Print Assumptions f_length_bound_int.
+
+(* non-vacuity: the polyline (0,0), (1,1), (3,2) has segments of length sqrt 2 and sqrt 5;
+   the float model (evaluated by the kernel) returns a double strictly between 3 and 4, the
+   exact model returns the terms [2; 5] and no exact sum, and the theorem places the float
+   within (1+u)^4 - 1 of sqrt 2 + sqrt 5 *)
+Example ex_f_length_bound_sqrt2_sqrt5 :
+  (PrimFloat.ltb (Z2F 3) (f_compute_line_length (map Z2F [0; 0; 1; 1; 3; 2]%Z) [0; 6]) &&
+   PrimFloat.ltb (f_compute_line_length (map Z2F [0; 0; 1; 1; 3; 2]%Z) [0; 6]) (Z2F 4)) = true /\
+  compute_line_length (map Some [0; 0; 1; 1; 3; 2]%Z) [0; 6] = ([2; 5]%Z, None) /\
+  ffinite (f_compute_line_length (map Z2F [0; 0; 1; 1; 3; 2]%Z) [0; 6]) = true /\
+  (Rabs (fvalue (f_compute_line_length (map Z2F [0; 0; 1; 1; 3; 2]%Z) [0; 6]%nat)
+         - (R_sqrt.sqrt 2 + R_sqrt.sqrt 5))
+    <= ((1 + u64) ^ 4 - 1) * (R_sqrt.sqrt 2 + R_sqrt.sqrt 5))%R.
+Proof. exact FloatLengthBound.ex_f_length_bound_sqrt2_sqrt5. Qed.
